@@ -309,6 +309,45 @@ def execute(prop, pid, binpath, ops_path, workdir, tag, timeout=3600):
                 cases.append({"name": hit["name"], "ops": hit["ops"], "real": hit["real"]})
             t3.append({"prop": m.group(1), "case": hit["name"], "msg": m.group(3), "case_index": len(cases) - 1})
         os.remove(wd)
+    # the process that runs the real code was killed by a signal (abort in the code under test: double close of a file
+    # descriptor, a panic inside a destructor during unwinding, a stack overflow …) and no watchdog verdict explains it:
+    # the case it was executing is a failing input — it is recovered from the input (the report is flushed at every
+    # `case` line) and replayed / shrunk like any other oracle failure
+    if rc < 0 and not os.path.exists(wd) and not any(x["prop"] == pid for x in t3):
+        in_cases, cur = [], None
+        with open(ops_path, errors="replace") as f:
+            for line in f:
+                line = line.rstrip("\n")
+                if not line.strip():
+                    continue
+                if line.startswith("case") or cur is None:
+                    cur = {"name": (line.split() + ["?", "?"])[1], "ops": [], "real": []}
+                    in_cases.append(cur)
+                cur["ops"].append(line)
+                cur["real"].append("<not reached>")
+        # harnesses flush at every `case` line (what precedes it is complete), others only when their buffer fills: the
+        # case being executed is the one after the last observed one, or the last observed one; each candidate is run
+        # alone and the one that kills the process again is taken
+        cands = [i for i in (len(cases), len(cases) - 1) if 0 <= i < len(in_cases)]
+        k = None
+        for i in cands:
+            probe = os.path.join(workdir, tag + ".probe.ops")
+            with open(probe, "w") as f:
+                f.write("\n".join(in_cases[i]["ops"]) + "\n")
+            prc, _, _ = run_real(binpath, pid, probe, os.path.join(workdir, tag + ".probe.real"), min(timeout, 600))
+            if prc < 0:
+                k = i
+                break
+        if k is None and cands:
+            k = cands[0]
+        if k is not None:
+            hit = in_cases[k]
+            if k == len(cases) - 1:
+                cases.pop()   # partially observed
+            cases.append({"name": hit["name"], "ops": hit["ops"], "real": hit["real"]})
+            last = [l for l in out.strip().splitlines() if l.strip()][-1:] or [""]
+            t3.append({"prop": pid, "case": hit["name"], "case_index": len(cases) - 1,
+                       "msg": "the process running the real code was killed by signal %d while executing this case: %s" % (-rc, last[0][:200])})
     res["cases"], res["notes"] = cases, notes
     res["t3"] = [x for x in t3 if x["prop"] == pid]
     res["t3_other"] = [x for x in t3 if x["prop"] != pid]
